@@ -11,10 +11,12 @@ only = sys.argv[1:]
 rows = []
 for name in sorted(os.listdir(root)):
     d = os.path.join(root, name)
-    if not os.path.isdir(d) or (only and name not in only):
+    if not os.path.isdir(d) or (only and name not in only) or not os.path.exists(os.path.join(d, 'meta.json')):
         continue
     meta = json.load(open(os.path.join(d, 'meta.json')))
     pid = meta['property']
+    if meta.get('detected_by'):
+        pid = meta['detected_by'][0]      # the change breaks another property than the one it was written for (see its note)
     r = subprocess.run(['/venv/bin/python', '/verif/tools/mutcheck.py', '--no-tests', os.path.join(d, 'patch.diff'), pid],
                        capture_output=True, text=True)
     line = [l for l in r.stdout.splitlines() if l.startswith(pid + ' exit=')]
